@@ -3,7 +3,9 @@ package checks
 import (
 	"errors"
 	"fmt"
+	"math/big"
 	"regexp"
+	"strings"
 	"sync"
 
 	"github.com/indexsupply/shovel/shovel"
@@ -11,6 +13,7 @@ import (
 	"verif/harness/fakepg"
 	"verif/harness/gen"
 	"verif/harness/model"
+	"verif/harness/refmodel"
 	"verif/harness/scen"
 	"verif/harness/simnode"
 	"verif/harness/vk"
@@ -226,7 +229,38 @@ func c01Run(c *vk.Case) {
 		t := gen.TargetMaker(d, addrs, pipeABI)
 		co.Makers = append([]gen.LogMaker{t, t, t}, gen.DecoyMakers(d, addrs, pipeABI)...)
 	}
-	chain := simnode.NewChain(nextChainID(), gen.Content(co))
+	content := gen.Content(co)
+	// one log case in sixteen: a block holds, after its other logs, a log with the declared event's topics whose data is
+	// cut short (any contract can emit one). The integration may stop in front of that block for good (a failing step is
+	// no subject of the statement) or step over the log; a step that succeeds must still write every row of the blocks
+	// it covers
+	malformedAt := uint64(0)
+	if d.Mode() == model.ModeLog && c.Index%16 == 9 && start <= uint64(initial) && len(refmodel.SelectedLeaves(d.Inputs)) > 0 {
+		malformedAt = max(start, 1) + uint64(r.Intn(int(uint64(initial)-max(start, 1))+1))
+		if start == 0 {
+			malformedAt = uint64(initial)
+		}
+		t, seed := gen.TargetMaker(d, addrs, pipeABI), r.U64()
+		inner := content
+		content = func(b *simnode.Block) {
+			inner(b)
+			if b.Num != malformedAt {
+				return
+			}
+			rr := vk.NewRNG(vk.Derive(seed, b.Version))
+			if len(b.Txs) == 0 {
+				b.Txs = append(b.Txs, simnode.Tx{Hash: rr.Bytes(32), From: rr.Bytes(20), To: rr.Bytes(20), GasPrice: big.NewInt(1), MaxPrio: big.NewInt(1), MaxFee: big.NewInt(1), Value: big.NewInt(0), EffGasPrice: big.NewInt(1), Status: 1})
+			}
+			last := &b.Txs[len(b.Txs)-1]
+			last.Logs = append(last.Logs, t(rr)) // a well-formed one in front of it
+			bad := t(rr)
+			bad.Data = bad.Data[:min(4, len(bad.Data))]
+			bad.Meta = &model.LogMeta{Malformed: true}
+			last.Logs = append(last.Logs, bad)
+		}
+		c.Obs("cases_with_undecodable_matching_log", 1)
+	}
+	chain := simnode.NewChain(nextChainID(), content)
 	chain.Grow(initial)
 	node := simnode.Global().NewNode(chain)
 	spec := &scen.Spec{
@@ -287,6 +321,7 @@ func c01Run(c *vk.Case) {
 	}
 	var trace []string
 	lastErr := ""
+	abiStall, stalled := 0, false
 	for {
 		if steps > budget() {
 			c.Violate("no-progress", merge(detail, map[string]any{"steps": steps, "position": pm.pos, "head": chain.Head().Num, "trace": lastN(trace, 25), "last_error": lastErr}),
@@ -330,6 +365,14 @@ func c01Run(c *vk.Case) {
 		if len(c.Res.Violations) > 0 {
 			break
 		}
+		if malformedAt > 0 && res.Err != nil && strings.Contains(res.Err.Error(), "abi data") {
+			if abiStall++; abiStall >= 3 {
+				stalled = true
+				break
+			}
+		} else {
+			abiStall = 0
+		}
 		atHead := pm.hasPos && pm.pos == chain.Head().Num
 		notStarted := !pm.hasPos && start > chain.Head().Num // configured start is still in the future
 		if quiet && errors.Is(res.Err, shovel.ErrNothingNew) && (atHead || notStarted) {
@@ -354,7 +397,15 @@ func c01Run(c *vk.Case) {
 	}
 	fp.mu.Unlock()
 	c.Obs("faults_injected", int64(injected))
-	if len(c.Res.Violations) == 0 && pm.hasPos {
+	switch {
+	case stalled:
+		// three steps in a row failed on the undecodable log: the integration stands in front of its block
+		c.Obs("stalled_in_front_of_undecodable_log", 1)
+		if pm.hasPos && pm.pos >= malformedAt {
+			c.Violate("position-passed-a-block-whose-step-fails", merge(detail, map[string]any{"position": pm.pos, "block": malformedAt, "trace": lastN(trace, 25)}),
+				"steps fail on the undecodable log of block %d while the recorded position is %d", malformedAt, pm.pos)
+		}
+	case len(c.Res.Violations) == 0 && pm.hasPos:
 		pm.quiescenceVerdict(chain.Head().Num, plan, merge(detail, map[string]any{"plan": plan, "trace": lastN(trace, 25)}))
 	}
 	if us := env.PG.Unsupported(); len(us) > 0 {
